@@ -113,6 +113,7 @@ def run_history(ctx, case, hooks: Hooks, instance=None):
     inst = case["instance"]
     run = Run(inst, case.get("filter"), instance=instance)
     rng = random.Random(case["seed"])
+    look = random.Random(case["seed"] ^ 0x10057)     # own stream: existing cases keep their histories
     hooks.start(run)
     explicit = case.get("history")
     k = 0
@@ -177,6 +178,16 @@ def run_history(ctx, case, hooks: Hooks, instance=None):
             hooks.reset(run)
             continue
         hooks.before(run)
+        if look.random() < 0.35 and not run.done():
+            # look-ahead (wave 14, C01-30): the caller asks when operations that are not ready yet
+            # could start, before their predecessors are dispatched - pure public queries, judged
+            # in C05; here they only must not influence the schedule that is built afterwards
+            pool = run.r.unscheduled()
+            for o in look.sample(pool, min(len(pool), look.randint(1, 3))):
+                run.d.start_time(run.op(o), look.choice(run.r.op_machines[o]))
+                if look.random() < 0.3:
+                    run.d.earliest_start_time(run.op(o))
+            ctx.count("lookahead_queries")
         if explicit is None and case.get("failing_solver") and rng.random() < 0.12 \
                 and raiser is None and not run.done():
             # a rule solver is handed the caller's dispatcher; the user's rule fails after a few
